@@ -581,6 +581,10 @@ def _ctor_kwargs(method: str, kws: List[str], arch, excl: List[str]):
         if k == "disc":
             kw["discrete_cost"] = True
         elif k == "full":
+            # (MPS: the default bit-cost specification cannot cost a layer that is excluded from the search - cost raises
+            #  KeyError('w_precision'); a limitation of cost evaluation, reported, outside C07)
+            if method == "MPS" and any(n["excl"] for n in arch["nodes"]):
+                continue
             kw["full_cost"] = True
         elif k == "notrain":
             kw.update({"train_features": False, "train_rf": False, "train_dilation": False})
@@ -623,14 +627,26 @@ def run(sc: Dict[str, Any]) -> Dict[str, Any]:
     method, mode, fold, auto = sc["method"], sc["mode"], bool(sc.get("fold", False)), bool(sc.get("auto", True))
     hist = list(sc.get("hist", []))
     tr: Dict[str, Any] = {"arch": arch, "method": method, "mode": mode, "fold": fold, "auto": auto, "hist": hist, "kw": [], "dwe": -1,
-                          "user_ok": True, "conv_ok": False, "err": "", "errk": "", "O": [], "OP": [], "dpl": -1, "N": [], "E": [], "masks": [],
+                          "user_ok": True, "bn_sens": True, "conv_ok": False, "err": "", "errk": "", "O": [], "OP": [], "dpl": -1, "N": [], "E": [], "masks": [],
                           "snopt0": [], "snopt1": [],
                           "u0": mode == "train", "w1": False, "s1": False, "u1": False, "kids": True,
                           "dw": -1, "du": -1, "sd_keys": True, "sd_vals": True, "attrs_changed": [], "attrs_changed_pl": 0, "attrs_added": 0,
                           "H": [], "dwh": -1, "sd_vals_end": True,
                           "exp_ok": False, "exp_err": "", "de": -1, "de_checked": False, "dead": 0,
                           "w2": False, "s2": False}
-    model, xs = build_user_model(arch, fold, int(sc.get("seed", 0)))
+    # non-degenerate observations: a network whose output is identically zero on the probe batch (dead final ReLU on a narrow
+    # layer) would make every output comparison vacuous: take the next seed
+    seed0 = int(sc.get("seed", 0))
+    for attempt in range(4):
+        model, xs = build_user_model(arch, fold, seed0 + 7919 * attempt)
+        with torch.no_grad():
+            try:
+                if float(copy.deepcopy(model).eval()(*xs).abs().max()) > 0.0:
+                    break
+            except Exception:
+                break
+    sc = dict(sc, seed=seed0 + 7919 * attempt)          # the seed actually used (twin, input_shape/example choice)
+    tr["seed_used"] = sc["seed"]
     model.train(mode == "train")
     # the harness' own obligation (network = architecture) is checked on a twin without any plinio object in it
     if any(n["pl"] for n in arch["nodes"]):
@@ -646,6 +662,14 @@ def run(sc: Dict[str, Any]) -> Dict[str, Any]:
         with torch.no_grad():
             y0 = ref(*xs)                      # recorded BEFORE the conversion, on an independent copy
         tr["OP"], _ = project_graph(trace_plain(ref))
+        # does the output depend on the BatchNorm layers at all on this probe batch?  (a dead ReLU downstream makes a lost or
+        # doubled BatchNorm unobservable: predictions "the finding must show" are only made where it can)
+        pert = copy.deepcopy(ref)
+        with torch.no_grad():
+            for m_ in pert.modules():
+                if isinstance(m_, (nn.BatchNorm1d, nn.BatchNorm2d)) and m_.running_mean is not None:
+                    m_.running_mean.add_(0.7)
+            tr["bn_sens"] = bool(float((pert(*xs) - y0).abs().max()) > 1e-6 * (1.0 + float(y0.abs().max())))
         if twin is not model:
             with torch.no_grad():
                 tr["dpl"] = _rel(y0, twin.eval()(*xs))
